@@ -8,6 +8,7 @@ import Cicada.Model.Script
 import Cicada.Model.Locust
 import Cicada.Model.ScriptRun
 import Cicada.Spec.C14
+import Cicada.Spec.C15
 import Cicada.Spec.C17
 import Cicada.Spec.C03
 import Cicada.Spec.C01
@@ -553,8 +554,19 @@ def answer (stream : String) (f : Array String) : Ans :=
   | "xpargtok" =>
     let args := if g 1 = "[]" then [] else ((g 1).splitOn ",").map unhex
     let t := unhex (g 0)
-    -- the function itself returns the token unchanged when the anchored regex does not match at all
-    { m := hex (expandArgsTok args t) }
+    let a : Ans := { m := hex (expandArgsTok args t) }
+    if g 2 = "c15" then
+      let w : List C15.Seg := if g 3 = "[]" then [] else ((g 3).splitOn ",").filterMap (fun p => match p.splitOn ":" with
+        | ["l", x] => some (.lit (unhex x))
+        | ["p", x] => some (.pos (unhex x))
+        | ["b", x] => some (.bpos (unhex x))
+        | ["a"] => some .all
+        | _ => none)
+      if C15.render w ≠ t then { a with s := "RENDER-MISMATCH" } else
+      let ok := C15.wordOk w
+      { a with s := if ok then hex (C15.specArgs args w) else "-", guard := if ok then "1" else "0",
+               cls := if ok then "-" else "outside-statement:word" }
+    else a
   | "argsin" => { m := if isArgsInToken (unhex (g 0)) then "1" else "0" }
   | "entry" =>
     -- does the script path (expand_args) change what the line means?  same list items and same plans
